@@ -178,8 +178,3 @@ Definition quiet_beh (b : beh) : Prop :=
   forall h e k, b h e = Some k -> (e = Ecall \/ e = Eret_obj) /\ (k = KFault \/ k = KOther).
 Definition quiet (fire : target -> ev -> bool -> list lid * option exk) : Prop :=
   forall t e d k, snd (fire t e d) = Some k -> (e = Ecall \/ e = Eret_obj) /\ (k = KFault \/ k = KOther).
-
-(** the raising firings of the property's alphabet are only ever made through ctx.fire_event *)
-Definition sites_ok (p : stmt) : bool :=
-  forallb (fun te => target_eqb (fst te) TCtx || negb (ev_eqb (snd te) Ecall || ev_eqb (snd te) Eret_obj))
-          (sites p).
